@@ -103,7 +103,11 @@ func (k Keeper) CalculateBatchAllocation(ctx context.Context, auction types.Auct
 		if matched { // If we found a valid matching price, store the result
 			matchRes = res
 		}
-		return matched
+		// The search predicate must be monotone in the price: report whether the demand
+		// fits the selling amount (res != nil), not whether something was sold. A price
+		// level at which every bid converts to zero coins fits but sells nothing, and
+		// must not hide the lower price levels from the search.
+		return res != nil
 	})
 
 	mInfo.MatchedLen = int64(len(matchRes.MatchedBids))
